@@ -24,7 +24,7 @@ RULE += ('; also: list outputs mutated after acceptance, namespace validators ob
 ASSUMPTIONS = ['a fresh Process class per case (emitting into a dynamic namespace adds namespaces to the class spec)',
                'reference model written from the statement; namespace creation by earlier emissions is tracked by the model']
 REQUIRED = ['emissions', 'accepted', 'rejected', 'rejected_valueerror', 'dynamic_accepted', 'nested_paths', 'unchanged_checks', 'listener_checks',
-            'success/true', 'success/false_by_outputs', 'dict_values', 'identity_checks', 'late_emissions']
+            'success/true', 'success/false_by_outputs', 'dict_values', 'identity_checks', 'late_emissions', 'other_separator']
 BOUNDS = {'quick': '300 specs x 12 emission sequences', 'thorough': '3000 specs x 25 sequences'}
 NAMES = ['a', 'ab', 'n', 'x']
 UN = c11.UN
@@ -121,7 +121,8 @@ def gen_cases(tier, seed):
     for s in range(nspecs):
         spec = rand_out_ns(rng, depth, top=True)
         for _ in range(nseq):
-            yield {'spec': spec, 'emissions': rand_emissions(rng, spec), 'ret': rng.choice([None, 9, 'r', ['unsucc', 2]])}
+            # (every fifth spec addresses its nested ports with another separator than '.')
+            yield {'spec': spec, 'emissions': rand_emissions(rng, spec), 'ret': rng.choice([None, 9, 'r', ['unsucc', 2]]), 'slash': s % 5 == 4}
 
 
 # --- building ------------------------------------------------------------------------------
@@ -132,12 +133,21 @@ def _kw(attrs):
     return kw
 
 
+class SlashNamespace(PortNamespace):
+    NAMESPACE_SEPARATOR = '/'
+
+
+class SlashSpec(plumpy.ProcessSpec):
+    """A spec whose nested ports are addressed as ``ns/port`` (the separator belongs to the spec's namespace type)."""
+    PORT_NAMESPACE_TYPE = SlashNamespace
+
+
 def build(ns, children):
     for name, d in children.items():
         if d[0] == 'port':
             ns[name] = OutputPort(name, **_kw(d[1]))
         else:
-            sub = PortNamespace(name, **_kw(d[1]))
+            sub = type(ns)(name, **_kw(d[1]))
             ns[name] = sub
             build(sub, d[2])
 
@@ -161,7 +171,7 @@ class Emitter(plumpy.Process):
                 continue
             before = copy.deepcopy(c11.plain(self.outputs))
             try:
-                self.out(path, value)
+                self.out(path.replace('.', self.spec().namespace_separator), value)
                 log.append(['ok', path, c11.plain(self.outputs) == before])
             except Exception as exc:  # noqa: BLE001
                 log.append(['raise', path, type(exc).__name__, c11.plain(self.outputs) == before])
@@ -187,7 +197,7 @@ class OutListener(plumpy.ProcessListener):
         self.emitted.append([output_port, value, dynamic])
 
 
-def make_class(spec):
+def make_class(spec, slash=False):
     _N[0] += 1
 
     def define(cls, pspec):
@@ -196,7 +206,7 @@ def make_class(spec):
             setattr(pspec.outputs, k, v)
         build(pspec.outputs, spec[2])
 
-    cls = type('Out_%d' % _N[0], (Emitter,), {})
+    cls = type('Out_%d' % _N[0], (Emitter,), {'_spec_class': SlashSpec} if slash else {})
     cls.define = classmethod(define)
     return cls
 
@@ -290,10 +300,10 @@ def _objects(mapping, prefix=''):
 def run_case(case):
     V = judges.V
     spec = case['spec']
-    cls = make_class(spec)
+    cls = make_class(spec, slash=bool(case.get('slash')))
     emissions = [[p, c11._real(v)] for p, v in case['emissions']]
     obs = {'emissions': len(emissions), 'accepted': 0, 'rejected': 0, 'rejected_valueerror': 0, 'dynamic_accepted': 0, 'nested_paths': 0,
-           'unchanged_checks': 0, 'listener_checks': 0, 'success': {}, 'dict_values': 0}
+           'unchanged_checks': 0, 'listener_checks': 0, 'success': {}, 'dict_values': 0, 'other_separator': int(bool(case.get('slash')))}
     viol = []
     with Driver(3000) as drv:
         try:
@@ -379,7 +389,8 @@ def run_case(case):
         exp_emitted.append(['zz_late', 1, True])
     if not viol:
         obs['listener_checks'] = len(exp_emitted)
-        if [[p, c11.plain(v), d] for p, v, d in lst.emitted] != [[p, c11.plain(v), d] for p, v, d in exp_emitted]:
+        sep = '/' if case.get('slash') else '.'
+        if [[p, c11.plain(v), d] for p, v, d in lst.emitted] != [[p.replace('.', sep), c11.plain(v), d] for p, v, d in exp_emitted]:
             viol.append(V('listener-args', 'listener-args', 'on_output_emitted got %r, expected %r (spec %s)' % (lst.emitted, exp_emitted, shape)))
         if outputs != c11.plain(exp_outputs):
             viol.append(V('outputs-differ', 'outputs-differ', 'outputs %r, expected %r (spec %s, emissions %r)' % (outputs, exp_outputs, shape, case['emissions'])))
